@@ -23,18 +23,26 @@ import shutil
 import time
 
 from vlib import defgen as G
+from vlib import defgen_hist as H
 from vlib import langs as L
 from vlib.common import HarnessError, Result, RunContext, Violation, conclude, derive_seed, hyp_run, run_shards
 
 RULE = ("(a)+(b): Hypothesis draws well-formed definition closures (vlib.defgen.programs, all three compiler options drawn, half of them "
-        "with the 5-file skeleton); each is written once and compiled twice in separate interpreters (run 1: cwd = parent of the source "
+        "with the 5-file skeleton; the all-minimal first example of each campaign is skipped); most get constructs the round trip is sensitive to "
+        "(vlib.defgen_hist): compiler_options sections in IMPORTED files with alignment switches that differ from the options in force, a "
+        "compiler_options section in the root file (consistent with the options in force - then `python -m pyrtma.compile` without switches is a "
+        "further compilation that must give the same bytes and its combined YAML is the one recompiled - or arbitrary, compile() ignores it), one "
+        "array length written as an expression of > 90 columns with 2-3 blanks around the operators; one closure in five is a model-free closure "
+        "whose structs / messages have fields of CORE struct / message types (DATA_SET, SUBSCRIBE, CONNECT ...) behind 4-byte members; each is written once and compiled twice in separate interpreters (run 1: cwd = parent of the source "
         "tree, relative input path, absolute output directory, PYTHONHASHSEED=0; run 2: another cwd, absolute input path, relative output "
         "directory, a different PYTHONHASHSEED; real black for a sample, stubbed otherwise, always the same mode in both runs); the "
         ".py/.js/.m/.h/_combined.yaml/.txt outputs must be byte-identical.  The combined YAML of run 1 is then recompiled with "
-        "`python -m pyrtma.compile` and the resulting Python module (every int/float/str global; type_id, type_hash, type_size, "
+        "`python -m pyrtma.compile -i gdefs_combined.yaml` and NO option switch (the file carries the options) and the resulting Python module (every int/float/str global; type_id, type_hash, type_size, "
         "ctypes.sizeof, alignment and every field's name/kind/width/length/offset of every class), the JavaScript dump and the MATLAB "
         "value tree must equal those of the original.  (a') sequences of 2-4 different closures (plain builder of the generator, seeded from "
-        "VERIF_SEED) are compiled one after the other by ONE long-lived interpreter and each also by a fresh interpreter (same black mode, "
+        "VERIF_SEED; five of six later closures RE-USE NAMES of an earlier closure of the sequence with another meaning: the same files after 2-6 "
+        "name-keeping edits - alias with another base type, struct <-> message, other field list, other constant value, other id - or an unrelated "
+        "closure whose aliases / structs / messages / signals are renamed to names the earlier closure uses for definitions of the same or another kind) are compiled one after the other by ONE long-lived interpreter and each also by a fresh interpreter (same black mode, "
         "different PYTHONHASHSEED): all six outputs of every closure must be byte-identical, and the combined YAML the long-lived process "
         "wrote for the last closure goes through the same command-line round trip.  A third process drives ONE Parser object through the "
         "same sequence (all closures of a sequence share the three options): clear(), parse(), then the six back ends exactly as compile() "
@@ -43,12 +51,14 @@ RULE = ("(a)+(b): Hypothesis draws well-formed definition closures (vlib.defgen.
         "(output name core_defs, IMPORT_COREDEFS false) and compared with the shipped core_defs.py by ast.dump and by the imported "
         "signature; then N generated single edits (constant value, field type, message id, field order, field name, array length, "
         "module/host id, alias target) of a scratch copy must each make that comparison fail.  Non-trivial = accepted program with >=2 "
-        "files and >=1 padded struct (a)/(b), a closure compiled after >=1 different closure in the same process or by a Parser object used (or aborted) before (a'), or a detected edit (c); distinct = (graph shape, #files, options, black?, classes) or (edit kind, target).")
+        "files and >=1 padded struct, or with user definitions embedding core structs / messages (a)/(b), a closure compiled after >=1 different closure in the same process or by a Parser object used (or aborted) before (a'), or a detected edit (c); distinct = (graph shape, #files, options, black?, classes) or (edit kind, target).")
 ASSUME = [
     "the first line of the .txt info output is a comment holding the output file's own path relative to the definition root; it is compared after removing that path (it must differ when the output directory differs)",
     "checked on the unchanged tree: nothing but that first .txt line depends on how the root file's path is spelled (symlinks, relative/absolute, ..)",
     "both runs of a pair use the same black mode; black itself is assumed deterministic",
-    "the combined YAML embeds only IMPORT_COREDEFS; validate_alignment / auto_pad of the original compilation are passed again on the command line",
+    "the combined YAML is recompiled as it is written, through the command line, which reads compiler_options from the root file it is given: no switch repeats validate_alignment / auto_pad of the original compilation (the statement speaks of recompiling the combined-YAML output, not of recompiling it with remembered switches)",
+    "compiler_options sections of imported files have no documented effect (the command line reads the root file's, compile() none): closures carrying them are ordinary accepted closures",
+    "closures with fields of core types are generated without the independent layout model (it does not know the core definitions): their oracle is determinism and the round trip only; one the compiler rejects (size limit) is counted as not accepted",
     "type_source (the path of the defining file) legitimately changes through the combined-YAML round trip and is not compared",
     "(c) compares by AST, so that the verdict does not depend on the installed black version; the module docstring / COMPILED_PYRTMA_VERSION carry the package version, which is the same on both sides because both come from the same tree",
     "no MATLAB/Octave: the .m outputs of (b) are compared through vlib.langs.matlab_run",
@@ -140,9 +150,9 @@ def roundtrip(E: L.Examiner, program: G.Program, comb_src: str, orig_out: str, w
     comb = os.path.join(cdir, "gdefs_combined.yaml")
     shutil.copyfile(comb_src, comb)
     out_c = w.sub(f"combined{tag}/out")
-    extra = ([] if opts["validate_alignment"] else ["--no_val_align"]) + ([] if opts["auto_pad"] else ["--no_auto_pad"])
     try:
-        rc, text = L.compile_cli(comb, out_c, "gdefs", cwd=cdir, extra=extra)
+        # the combined file is compiled as it is: no switch repeats an option of the original compilation
+        rc, text = L.compile_cli(comb, out_c, "gdefs", cwd=cdir)
     except L.ToolTimeout:
         if res is not None:
             res.inconclusive += 1
@@ -155,7 +165,7 @@ def roundtrip(E: L.Examiner, program: G.Program, comb_src: str, orig_out: str, w
             try:
                 return program.by_name(n).kind
             except Exception:
-                return None
+                return H.core_kind(n) if opts["import_coredefs"] else None
 
         m = re.search(r"Unable to find definition for (\w+) in (\w+)", text)
         if m and kind(m.group(1)) == "message" and kind(m.group(2)) == "struct":
@@ -280,28 +290,105 @@ def run_program(E: L.Examiner, program: G.Program, black: bool, hashseed: int, r
                     res.count("path-spelling/" + tag)
         finally:
             sw.close()
-        out += roundtrip(E, program, os.path.join(out_a, "gdefs_combined.yaml"), out_a, w, res)
+        comb_src = os.path.join(out_a, "gdefs_combined.yaml")
+        if "root-file-options/consistent" in program.classes:
+            # the root file states the very options of this compilation: the documented command line, given no switch at all,
+            # is a further compilation of the same closure - same bytes (the .py only when run 1 used the real black, which the
+            # command line always does) - and its combined YAML is the one that goes through the round trip
+            out_cli = w.sub("out_cli")
+            try:
+                rcc, textc = L.compile_cli(root_abs, out_cli, "gdefs", cwd=w.sub("cli_cwd"), hashseed=str(hashseed))
+            except L.ToolTimeout:
+                rcc, textc = None, ""
+                if res is not None:
+                    res.inconclusive += 1
+            if rcc is not None and rcc != 0:
+                lines = [l for l in textc.strip().splitlines() if l.strip() and not l.startswith("INFO")]
+                out.append(("determinism/entry-point/rejected", f"compile(**options) accepts the closure, `python -m pyrtma.compile` with the same options "
+                            f"written in the root file's compiler_options does not (rc {rcc}): {' | '.join(lines[-3:])[:300]}"))
+            elif rcc == 0:
+                for ext in EXTS:
+                    if ext == "py" and not black:
+                        continue
+                    a, b = _read(os.path.join(out_a, "gdefs" + L.OUT_EXT[ext])), _read(os.path.join(out_cli, "gdefs" + L.OUT_EXT[ext]))
+                    if ext == "txt":
+                        a, b = _norm_txt(a), _norm_txt(b)
+                    if a != b:
+                        out.append((f"determinism/entry-point/{ext}", f"compile(**options) and the command line reading the same options from the root file's "
+                                    f"compiler_options give different gdefs{L.OUT_EXT[ext]}: {_first_diff(a, b)}"))
+                comb_src = os.path.join(out_cli, "gdefs_combined.yaml")
+                if res is not None:
+                    res.count("command-line-compiles-of-root-file-options")
+        out += roundtrip(E, program, comb_src, out_a, w, res)
     return out
 
 
+def run_roundtrip(E: L.Examiner, program: G.Program, res: Result = None):
+    """(b) alone: one compilation, then the command-line round trip of its combined YAML (regression replays)."""
+    with L.Work() as w:
+        root = program.write(w.sub("tree"))
+        out_a = w.sub("out_a")
+        try:
+            rc, _err = L.compile_in_subprocess(root, out_a, "gdefs", w.dir, 0, False, **program.compile_kwargs())
+        except L.ToolTimeout:
+            return []
+        if rc != 0:
+            return []
+        return roundtrip(E, program, os.path.join(out_a, "gdefs_combined.yaml"), out_a, w, res)
+
+
 def shape_of(program, black):
-    nt = len(program.files) >= 2 and "needs-padding" in program.classes
+    nt = (len(program.files) >= 2 and "needs-padding" in program.classes) or "core-embedding" in program.classes
     cl = tuple(sorted(c for c in program.classes if c in ("needs-padding", "reuse", "alias-field", "struct-array", "multi-path", "cycle", "respell",
-                                                          "expr-length", "message-in-message", "const-float", "string-const", "host-id", "reserved-range-dash")))
+                                                          "expr-length", "message-in-message", "const-float", "string-const", "host-id", "reserved-range-dash",
+                                                          "core-embedding", "imported-file-options", "root-file-options/consistent",
+                                                          "root-file-options/random", "long-type-text")))
     return nt, (program.shape, len(program.files), tuple(sorted(program.options.items())), black, cl)
 
 
-def shard_programs(seed, n, idx, n_black):
+NEW_CLASSES = ("core-embedding", "imported-file-options", "root-file-options/consistent", "root-file-options/random", "long-type-text")
+
+
+def st_closures():
+    """Closures of the general generator, most of them with one or two of the constructs the combined-YAML round trip is
+    sensitive to, and (one in five) model-free closures whose definitions embed CORE structs / messages."""
     from hypothesis import strategies as st
 
+    cross = ("alias-of-imported-struct", "alias-of-imported-struct-field", "struct-contains-message", "string-special", "prefix-names")
+    bases = st.one_of(G.programs(), G.programs(skeleton=True), G.programs(skeleton=True, rich=True), G.programs(skeleton=True, allow=cross))
+
+    @st.composite
+    def _c(draw):
+        ch = G.HypChooser(draw)
+        if ch.chance(0.2):
+            return H.core_embedding_program(ch)
+        p = draw(bases)
+        if ch.chance(0.3):
+            p = H.with_long_type_text(p, ch) or p
+        how = ch.weighted([("none", 3), ("imported", 3), ("imported+root-consistent", 2), ("imported+root-random", 2), ("root-consistent", 1)])
+        if how != "none":
+            p = H.with_file_options(p, ch, root="consistent" if how.endswith("root-consistent") else "random" if how.endswith("root-random") else None,
+                                    imported=how.startswith("imported"))
+        return p
+
+    return _c()
+
+
+def shard_programs(seed, n, idx, n_black):
     res = Result()
     E = L.Examiner()
     k = [0]
     try:
         def body(program):
-            black = k[0] < n_black
+            if k[0] == 0:
+                # Hypothesis' first example of a campaign is the all-minimal one (one file, nothing optional, the same in every
+                # shard): it is drawn but not evaluated, the campaign has one example more instead
+                k[0] = 1
+                res.evaluations -= 1
+                return
+            black = k[0] <= n_black
             k[0] += 1
-            hs = 1 + (seed * 31 + k[0] * 7919) % 4000000
+            hs = 1 + (seed * 31 + (k[0] - 1) * 7919) % 4000000
             fnd = run_program(E, program, black, hs, res)
             for key, what in fnd:
                 res.add_finding(key, what, {"key": key, "kind": "program", "program": program.to_json(), "black": black, "hashseed": hs})
@@ -310,12 +397,13 @@ def shard_programs(seed, n, idx, n_black):
                 res.shape(sh)
                 res.count("nontrivial")
             res.count("shape/" + program.shape)
+            for c in NEW_CLASSES:
+                if c in program.classes:
+                    res.count("closures-with/" + c)
             if len(res.samples) < 1:
                 res.sample({"shape": program.shape, "options": program.options, "files": list(program.files), "black": black, "hashseed": hs})
 
-        cross = ("alias-of-imported-struct", "alias-of-imported-struct-field", "struct-contains-message", "string-special", "prefix-names")
-        hyp_run(body, st.one_of(G.programs(), G.programs(skeleton=True), G.programs(skeleton=True, rich=True), G.programs(skeleton=True, allow=cross)),
-                seed, n, res, collect=True)
+        hyp_run(body, st_closures(), seed, n + 1, res, collect=True)
     finally:
         E.close()
         L.cleanup()
@@ -363,9 +451,15 @@ def run_sequence(E: L.Examiner, programs, black: bool, hashseed: int, res: Resul
                     res.count("sequence-closures-compared")
                     if compiled_before:
                         res.count("sequence-closures-after-another")
+                        for c in sorted(program.classes):
+                            if c in ("derived", "transplant") or c.startswith("derived/"):
+                                res.count("sequence-closures-reusing-names/" + c)
+                            elif c.startswith("transplant/"):
+                                res.count("sequence-closures-reusing-names/transplant/" + ("same-kind" if len(set(c[11:].split("-as-"))) == 1 else "other-kind"))
                         res.shape("seq", program.shape, len(program.files), tuple(sorted(opts.items())), black, compiled_before,
                                   tuple(sorted(c for c in program.classes if c in ("needs-padding", "reuse", "alias-field", "multi-path", "host-id", "string-const",
-                                                                                   "reserved-range-dash", "alias-of-imported-struct", "struct-contains-message"))))
+                                                                                   "reserved-range-dash", "alias-of-imported-struct", "struct-contains-message",
+                                                                                   "derived", "transplant") or c.startswith("derived/"))))
                 for ext in EXTS:
                     a, b = _read(os.path.join(out_f, "gdefs" + L.OUT_EXT[ext])), _read(os.path.join(out_w, "gdefs" + L.OUT_EXT[ext]))
                     if ext == "txt":
@@ -425,7 +519,18 @@ def make_sequence(seed, length):
     progs, faults = [], []
     for k in range(length):
         kw = dict(SEQ_KW[rnd.randrange(len(SEQ_KW))], **opts)
-        p = G.random_program(rnd.randrange(1 << 30), **kw)
+        # later closures mostly RE-USE NAMES of the closure before them with another meaning: the same files after name-keeping
+        # edits (alias with another base type, struct <-> message, other field lists / constant values / ids), or an unrelated
+        # closure whose aliases / structs / messages are called like definitions (of any kind) of the earlier one
+        mode = "fresh" if k == 0 else rnd.choice(["derive", "derive", "derive", "transplant", "transplant", "fresh"])
+        p = None
+        if mode == "derive":
+            p = H.derive_closure(progs[-1], G.RandomChooser(rnd.randrange(1 << 30)))
+        elif mode == "transplant":
+            fresh = G.random_program(rnd.randrange(1 << 30), **kw)
+            p = H.transplant_names(fresh, progs[rnd.randrange(len(progs))], G.RandomChooser(rnd.randrange(1 << 30))) or fresh
+        if p is None:
+            p = G.random_program(rnd.randrange(1 << 30), **kw)
         progs.append(p)
         f = None
         if k > 0 and rnd.random() < 0.5:
@@ -667,6 +772,8 @@ def replay_trace(trace: dict):
             progs = [G.Program.from_json(p) for p in trace["programs"]]
             faults = [G.Program.from_json(f) if f else None for f in trace.get("faults") or [None] * len(progs)]
             fnd = [(k, w) for k, w, _i in run_sequence(E, progs, trace.get("black", False), trace.get("hashseed", 12345), None, faults)]
+        elif trace.get("kind") == "roundtrip":
+            fnd = run_roundtrip(E, G.Program.from_json(trace["program"]))
         elif trace.get("kind") == "core":
             fnd = [(f"core/{a}", t) for a, t in compare_core(E, os.path.join(_pkg(), "core_defs"))]
         else:
